@@ -64,6 +64,11 @@ func loadKnownFuncs() map[string]bool {
 // function that nothing calls is part of the program and must be analysed).
 var everInlined = map[string]bool{}
 
+// keepHelpers: do not remove helpers whose uses were all inlined (set for the
+// retry of a round whose result did not type-check: the removal may have
+// taken the last use of an import with it)
+var keepHelpers bool
+
 func (p *Program) normaliseOnce(known map[string]bool, round int) (map[string][]byte, []string) {
 	if round == 1 {
 		everInlined = map[string]bool{}
@@ -337,7 +342,7 @@ func (p *Program) normaliseOnce(known map[string]bool, round int) (map[string][]
 		}
 	}
 	for obj, cand := range cands {
-		if refs[obj] != 0 || !everInlined[cand.fs.Name] {
+		if refs[obj] != 0 || !everInlined[cand.fs.Name] || keepHelpers {
 			continue
 		}
 		fd := cand.fs.Decl
